@@ -375,6 +375,7 @@ func (s *Syncer) LoadOnce(ctx context.Context, env *lmdb.Env, instance string, u
 		tTxnAcquire = ts
 		tsNano := header.TimestampFromTime(ts)
 		txnID = header.TxnID(txn.ID())
+		s.txnWrote = false
 
 		// There was a local change if the update transaction ID was more than 1
 		// higher than the last transaction ID we took a snapshot of.
@@ -454,6 +455,7 @@ func (s *Syncer) LoadOnce(ctx context.Context, env *lmdb.Env, instance string, u
 					if err != nil {
 						return err
 					}
+					s.noteTxnWrite()
 				}
 			}
 
@@ -481,6 +483,7 @@ func (s *Syncer) LoadOnce(ctx context.Context, env *lmdb.Env, instance string, u
 				if err != nil {
 					return err
 				}
+				s.noteTxnWrite()
 			}
 
 			// Open the DBI now. It has been created if it did not exist yet.
@@ -503,6 +506,7 @@ func (s *Syncer) LoadOnce(ctx context.Context, env *lmdb.Env, instance string, u
 			if s.lc.HeaderExtraPaddingBlock {
 				it.HeaderPaddingBlock = true
 			}
+			it.OnWrite = s.noteTxnWrite
 			err = strategy.Update(txn, targetDBI, it)
 			if err != nil {
 				return err
@@ -545,6 +549,13 @@ func (s *Syncer) LoadOnce(ctx context.Context, env *lmdb.Env, instance string, u
 		s.l.WithField("prevTxnID", txnID).WithField("txnID", info.LastTxnID).
 			Debug("Adjusting TxnID (no changes)")
 		txnID = header.TxnID(info.LastTxnID)
+	} else if !s.txnWrote {
+		// Our transaction did not change anything, so LMDB did not record it:
+		// the TxnID we got was reused by an application transaction that
+		// committed after ours ended. Do not report it as covered by us.
+		s.l.WithField("prevTxnID", txnID).WithField("txnID", info.LastTxnID).
+			Debug("Adjusting TxnID (no changes, TxnID reused by the application)")
+		txnID--
 	}
 
 	ts := snapshot.NameTimestampFromNano(header.Timestamp(snap.Meta.TimestampNano))
